@@ -756,9 +756,11 @@ func (fc *FuncCtx) opaqueCall(fr *Frame, st *State, com *ssa.CallCommon, key str
 		fc.callCount[cshort]++
 		env := fc.env(st, fc.entry)
 		names, tys := fc.calleeParams(com, nil)
+		env.calleeVars = map[string]bool{}
 		for i := range args {
 			if i < len(names) && args[i].T != nil {
 				env.vars[names[i]] = SV{T: args[i].T, GoT: tys[i]}
+				env.calleeVars[names[i]] = true
 			}
 		}
 		fc.callSiteClauses(st, env, cshort, fc.callCount[cshort], ins, nil)
@@ -884,6 +886,10 @@ func (fc *FuncCtx) contractCall(fr *Frame, st *State, com *ssa.CallCommon, key s
 			unsupported("call %s: argument %s has sort %s, expected %s", key, names[i], argTerms[i].Sort.Name, want.Name)
 		}
 		env.vars[names[i]] = SV{T: argTerms[i], GoT: tys[i]}
+		if env.calleeVars == nil {
+			env.calleeVars = map[string]bool{}
+		}
+		env.calleeVars[names[i]] = true
 	}
 	cshort := shortFuncName(key)
 	fc.callCount[cshort]++
